@@ -69,6 +69,16 @@ CHECKS = {
              'variables to the names invented in the same rule. A genuine defect (F5) was repaired by fix: commit 514424e; a residual '
              'order-dependent case in the parser phase is a known finding (F5b).',
         design='DESIGN.md §6 C07'),
+    'C12': dict(
+        technique='Lean 4 proof of history independence of the API state machine for any front end + state monitors and fresh-interpreter differential on API histories',
+        text='Lean theorems, parametric in the whole front end (parser, converters, printers): from the reset structure of the entry points every '
+             'API call gives, after ANY history of calls and from ANY process state, the result it gives in a fresh process; repetition is '
+             'idempotent; the table a call leaves behind is a function of the call alone.',
+        note='Trusted: Lean kernel; the monitors of harness/props/c12.py (every call of every history runs in a fresh interpreter with snapshots of '
+             'SignatureManager.signatures, the Utility flags, DUMMY_ENTITY and the shared default arguments) which check the frame conditions the '
+             'model assumes (front end is a function of its arguments; check_syntax/cnl_to_json blind to the auto-link flag). The interpreter\'s '
+             'hash seed is exercised (random seed per history), not modelled. Two genuine defects were repaired by fix: commits c710714, 36930bb.',
+        design='DESIGN.md §6 C12'),
 }
 
 NOT_YET = {}
